@@ -30,6 +30,9 @@ type faultCase struct {
 	Fault  sched.Fault  `json:"fault"`
 	Fault2 *sched.Fault `json:"fault2,omitempty"` // a second failing operation (sampled pairs)
 	Rules  []sched.Rule `json:"rules,omitempty"`
+	// EarlyCleanUp: when the run has ended on an error the caller calls CleanUp at once, without
+	// waiting for background writers that may still be at work (they finish afterwards)
+	EarlyCleanUp bool `json:"early_cleanup,omitempty"`
 }
 
 // fault points: step -> actions that make the operation following it fail
@@ -96,9 +99,16 @@ type runResult struct {
 	timeout    bool
 	cleanupErr error
 	residue    string // the sorter's directory if it still exists after CleanUp
+	// earlyResidue: CleanUp was called while writers were still running, returned nil, and the
+	// directory exists again after they have finished
+	earlyResidue bool
 }
 
 func execute(h mx.History, faults []sched.Fault, rules []sched.Rule) runResult {
+	return executeWith(h, faults, rules, false)
+}
+
+func executeWith(h mx.History, faults []sched.Fault, rules []sched.Rule, earlyCleanUp bool) runResult {
 	s, err := mx.NewSorter(h)
 	if err != nil {
 		return runResult{err: &mx.Err{Kind: "setup", Msg: err.Error()}}
@@ -150,10 +160,24 @@ func execute(h mx.History, faults []sched.Fault, rules []sched.Rule) runResult {
 	quiescent := func() bool {
 		return sc.Count("write-received") >= sc.Count("push-handoff") && sc.Count("write-received") == sc.Count("write-return-buffer")
 	}
+	early := false
+	if earlyCleanUp && !res.timeout && res.panic == nil && res.out.FirstError != nil && !quiescent() {
+		// the caller gives up as soon as it has seen the error; writers still running carry on (the
+		// hooks stay installed for them) and must not bring the directory back
+		early = true
+		res.cleanupErr = s.M.CleanUp()
+		vlib.Count("cleanup-called-while-writers-were-still-running", 1)
+	}
 	for i := 0; i < 10000 && !quiescent(); i++ {
 		time.Sleep(time.Millisecond)
 	}
-	if !res.timeout && quiescent() {
+	if early {
+		if quiescent() && res.cleanupErr == nil {
+			res.residue = s.OwnDir()
+			res.earlyResidue = res.residue != ""
+		}
+		morass.VerifHook = nil
+	} else if !res.timeout && quiescent() {
 		// whatever happened before, CleanUp removes the sorter's directory
 		morass.VerifHook = nil
 		res.cleanupErr = s.M.CleanUp()
@@ -170,7 +194,7 @@ func checkFault(c faultCase) *vlib.Failure {
 	if c.Fault2 != nil {
 		faults = append(faults, *c.Fault2)
 	}
-	res := execute(c.H, faults, c.Rules)
+	res := executeWith(c.H, faults, c.Rules, c.EarlyCleanUp)
 	what := fmt.Sprintf("fault %s at %s#%d (chunk %d, %d values, concurrent=%v)", c.Fault.Action, c.Fault.Step, c.Fault.Occ, c.H.Chunk, len(c.H.Cycles[0].Keys), c.H.Concurrent)
 	if c.Fault2 != nil {
 		what += fmt.Sprintf(" and %s at %s#%d", c.Fault2.Action, c.Fault2.Step, c.Fault2.Occ)
@@ -191,6 +215,9 @@ func checkFault(c faultCase) *vlib.Failure {
 			return vlib.Failf("silent-"+res.err.Kind, "%s: every Push, Finalise and Pull reported success but %s; sabotage applied: %v", what, res.err.Msg, res.sc.Applied())
 		}
 		return vlib.Failf("wrong-values-before-error-"+res.err.Kind, "%s: %s (first error later: %v)", what, res.err.Msg, res.out.FirstError)
+	}
+	if res.earlyResidue {
+		return vlib.Failf("directory-back-after-cleanup", "%s: CleanUp, called right after the error while background writers were still running, returned nil; once they had finished the directory %s existed again (sabotage applied: %v; events: %s)", what, res.residue, res.sc.Applied(), res.sc.Trace(60))
 	}
 	if res.residue != "" {
 		return vlib.Failf("cleanup-leaves-directory-after-fault", "%s: CleanUp returned %v and the directory %s still exists (sabotage applied: %v)", what, res.cleanupErr, res.residue, res.sc.Applied())
@@ -294,7 +321,15 @@ func TestFaultWithSchedule(t *testing.T) {
 						Action: rapid.SampledFrom([]string{"readonly", "close", "readonly-once"}).Draw(t, "f2-action-second")}
 				}
 			}
-			if rapid.IntRange(0, 2).Draw(t, "overwrite-template") == 0 && c.Fault2 == nil && len(c.H.Cycles) == 1 {
+			c.EarlyCleanUp = rapid.IntRange(0, 2).Draw(t, "early-cleanup") == 1
+			if c.Fault2 == nil && len(c.H.Cycles) == 1 && rapid.IntRange(0, 5).Draw(t, "straggler-template") == 4 {
+				// the first writer fails at once; the second is still before its file creation (held
+				// there) when the caller sees the error and cleans up
+				c.Fault = sched.Fault{Step: "write-before-encode", Occ: 0, Action: rapid.SampledFrom([]string{"readonly", "close"}).Draw(t, "straggler-action")}
+				c.Rules = []sched.Rule{{Step: rapid.SampledFrom([]string{"write-received", "write-before-tempfile"}).Draw(t, "straggler-step"), Occ: 1, Until: "finalise-returned", TimeoutMs: rapid.SampledFrom([]int{60, 120}).Draw(t, "straggler-ms")}}
+				c.EarlyCleanUp = true
+			}
+			if rapid.IntRange(0, 2).Draw(t, "overwrite-template") == 0 && c.Fault2 == nil && len(c.H.Cycles) == 1 && !c.EarlyCleanUp {
 				// a failing writer, then a later writer's success, before the caller looks again
 				c.Fault = sched.Fault{Step: "write-before-encode", Occ: 0, Action: "readonly"}
 				c.Rules = []sched.Rule{
@@ -316,6 +351,9 @@ func TestFaultWithSchedule(t *testing.T) {
 			}
 			if len(c.H.Cycles) > 1 {
 				l = append(l, "reuse-after-failed-cycle")
+			}
+			if c.EarlyCleanUp {
+				l = append(l, "cleanup-right-after-the-error")
 			}
 			return l
 		},
